@@ -14,7 +14,7 @@ Inductive stage :=
 | SWrite.        (* write_requirements_file *)
 
 Inductive ecls :=
-| EValueError | ERepoInit | ENoCandidate | EMetadata | ECompilation | ESystemExit | EOther.
+| EValueError | ERepoInit | ENoCandidate | EMetadata | ECompilation | ESystemExit | EOSError | EOther.
 
 Definition stage_eqb (a b : stage) : bool :=
   match a, b with
@@ -25,7 +25,7 @@ Definition stage_eqb (a b : stage) : bool :=
 Definition ecls_eqb (a b : ecls) : bool :=
   match a, b with
   | EValueError, EValueError | ERepoInit, ERepoInit | ENoCandidate, ENoCandidate
-  | EMetadata, EMetadata | ECompilation, ECompilation | ESystemExit, ESystemExit
+  | EMetadata, EMetadata | ECompilation, ECompilation | ESystemExit, ESystemExit | EOSError, EOSError
   | EOther, EOther => true
   | _, _ => false
   end.
